@@ -167,7 +167,7 @@ func init() {
 			"invalid UTF-8, random and highly compressible strings up to 64 KiB (thorough: up to 3 MiB), periodic payloads of 4-5 MiB (thorough: up to 8 MiB) that deflate at its limit ratio x kinds blob/tree/commit; each case stores, " +
 			"reads back, stores other content, stores again and reads both back; command level: adaptive histories of file writes, hash-object, add, cat-file -t/-p, commit on the real binary judged by the C01 specification (id printed = SHA-1 of 'blob <len>\\0<bytes>', stored blob = file bytes, cat-file gives kind and bytes back, stored objects never change) and compared with the model (`sha`, `cmd.cat-file`); plus one crowded store (700 objects, thorough 3000, in one store so that fan-out directories are shared; all read back and every 7th stored again), through NewObject/Write/GetObject in-process with an independent " +
 			"inflate + crypto/sha1; a case is distinct by its script and non-trivial when the stored object was read back successfully",
-		Theorems: []string{"C01.decode_encode", "C01.get_put", "C01.put_frame", "C01.put_idem", "C01.id_eq", "C01.encode_injective"},
+		Theorems: []string{"C01.world_catfile_prints_stored", "C01.world_add_then_catfile", "C04.world_add_file_stored", "C01.decode_encode", "C01.get_put", "C01.put_frame", "C01.put_idem", "C01.id_eq", "C01.encode_injective"},
 		Trusted:  []string{"compress/zlib (cross-checked by an independent inflate)", "crypto/sha1 (the model's executable SHA-1 is compared with it on every payload)"},
 	}
 }
